@@ -3,6 +3,7 @@ package core
 import (
 	"fmt"
 	"sort"
+	"strings"
 
 	"verif.local/engine/explore"
 )
@@ -43,20 +44,47 @@ func Explore(r *Result, sp SchedSpec) *explore.Stats {
 			return sp.Expect
 		}
 	}
+	// The harnesses are deterministic functions of the schedule on the unchanged tree (every run re-checks
+	// it). If the same schedule gives different observations or a recorded schedule cannot be replayed, state
+	// survived from one execution to the next inside the code under test (a package-level cache, a pooled
+	// object, a lazily initialised table ...): for this library that is a violation in itself (results must
+	// not depend on earlier calls), and it is reported as such instead of exploring on top of it.
+	hidden := func(what string) *explore.Stats {
+		r.Violate(Violation{Check: strings.Split(sp.Check, ".")[0] + ".hidden_state", API: sp.API, Input: sp.Name,
+			Expected: "the same schedule gives the same execution every time (no state survives between executions)", Got: what})
+		r.Exhaustive = false
+		return &explore.Stats{Mode: sp.Mode, Outcomes: map[string]int{}, OutcomeSchedule: map[string][]int{}}
+	}
 	// determinism: the empty prefix twice
 	a := explore.RunOnce(sp.Body, nil)
 	b := explore.RunOnce(sp.Body, nil)
 	if a.Outcome() != b.Outcome() || !sameInts(a.Ns, b.Ns) {
-		panic(fmt.Sprintf("non-deterministic harness %s: default schedule gave %q (%d points) then %q (%d points)", sp.Name, a.Outcome(), len(a.Ns), b.Outcome(), len(b.Ns)))
+		return hidden(fmt.Sprintf("default schedule gave %q (%d choice points), then %q (%d choice points)", clip(a.Outcome(), 200), len(a.Ns), clip(b.Outcome(), 200), len(b.Ns)))
 	}
 	var st *explore.Stats
-	switch sp.Mode {
-	case "dpor":
-		st = explore.DPOR(sp.Body, sp.Opt)
-	case "naive":
-		st = explore.Naive(sp.Body, sp.Opt)
-	default:
-		st = explore.Bounded(sp.Body, sp.Opt)
+	diverged := ""
+	func() {
+		defer func() {
+			if e := recover(); e != nil {
+				msg := fmt.Sprint(e)
+				if strings.Contains(msg, "diverging replay") {
+					diverged = msg
+					return
+				}
+				panic(e)
+			}
+		}()
+		switch sp.Mode {
+		case "dpor":
+			st = explore.DPOR(sp.Body, sp.Opt)
+		case "naive":
+			st = explore.Naive(sp.Body, sp.Opt)
+		default:
+			st = explore.Bounded(sp.Body, sp.Opt)
+		}
+	}()
+	if diverged != "" {
+		return hidden("a recorded schedule could not be replayed: " + diverged)
 	}
 	r.AddStats(st)
 	// a non-trivial recorded schedule replayed twice
@@ -76,7 +104,7 @@ func Explore(r *Result, sp SchedSpec) *explore.Stats {
 		x1 := explore.RunOnce(sp.Body, sch)
 		x2 := explore.RunOnce(sp.Body, sch)
 		if x1.Outcome() != longest || x2.Outcome() != longest {
-			panic(fmt.Sprintf("non-deterministic replay in harness %s: schedule %v gave %q, then %q and %q", sp.Name, sch, longest, x1.Outcome(), x2.Outcome()))
+			return hidden(fmt.Sprintf("schedule %v gave %q, then %q and %q", sch, clip(longest, 150), clip(x1.Outcome(), 150), clip(x2.Outcome(), 150)))
 		}
 	}
 	for _, o := range outs {
@@ -92,7 +120,8 @@ func Explore(r *Result, sp SchedSpec) *explore.Stats {
 			}
 		}
 		if confirmed < 5 {
-			panic(fmt.Sprintf("harness %s: outcome %q not reproducible from its schedule (%d/5)", sp.Name, o, confirmed))
+			hidden(fmt.Sprintf("outcome %q reproduced only %d/5 times from its schedule %v", clip(o, 150), confirmed, sch))
+			continue
 		}
 		r.Violate(Violation{Check: sp.Check, API: sp.API, Input: sp.Name, Expected: want, Got: o, Schedule: sch, Replays: confirmed})
 	}
